@@ -142,13 +142,26 @@ Proof.
   rewrite H1, H2. repeat split.
 Qed.
 
+(* sync(): when it succeeds it is syncUpdate() *)
+Lemma step_syncfull_ok g st k id :
+  succeeded (snd (fst (step g st (OSyncFull k id)))) = true -> step g st (OSyncFull k id) = step g st (OSync k id).
+Proof.
+  unfold step, with_handle. destruct (h_get id (k_hs (ks st k))) as [h|]; [|reflexivity]. cbv zeta.
+  destruct (u_out (sync_core g k id (h_pend h) (k_fired (ks st k)))); try reflexivity.
+  destruct (tbl_has id (k_tbl (ks st k))); [reflexivity|simpl; discriminate].
+Qed.
+Ltac syncfull k id :=
+  let Hs0 := fresh "Hs0" in let E := fresh "E" in
+  intro Hs0; pose proof (step_syncfull_ok _ _ k id Hs0) as E; rewrite E in *; clear E; revert Hs0.
+
 (* ------------------------------------------------------------------ a successful step is the documented one *)
 Lemma step_spec g st o :
   succeeded (snd (fst (step g st o))) = true -> snd (step g st o) = spec_events g st o.
 Proof.
-  destruct o as [k kw0|k id c v|k id kw0|k id|k id|k id fr|k];
+  destruct o as [k kw0|k id c v|k id kw0|k id|k id|k id fr|k|k id|k id];
     [|rewrite step_assign_is_set; change (spec_events g st (OAssign k id c v)) with (spec_events g st (OSet k id [(c, v)]));
-      set (kw0 := [(c, v)])| | | | |]; unfold step.
+      set (kw0 := [(c, v)])| | | | | | |
+     syncfull k id; change (spec_events g st (OSyncFull k id)) with (spec_events g st (OSync k id))]; unfold step.
   - destruct (raiser _ (sel SCreate (tab g k))); [simpl; discriminate|].
     destruct (fill_defaults all_cols _) as [kw2|] eqn:Hf; [|simpl; discriminate].
     destruct (negb (validate kw2)); [simpl; discriminate|]. cbn [fst snd]. intros Hs.
@@ -179,6 +192,11 @@ Proof.
     rewrite H1, H2. reflexivity.
   - destruct (tbl_has id _); reflexivity.
   - reflexivity.
+  - unfold with_handle, spec_events. destruct (h_get id (k_hs (ks st k))) as [h|]; reflexivity.
+  - unfold with_handle, spec_events, pend_of.
+    destruct (h_get id (k_hs (ks st k))) as [h|] eqn:Hh; [|simpl; discriminate].
+    unfold commit_ures. cbn [fst snd]. intros Hs. rewrite (sync_core_ok _ _ _ _ _ Hs). unfold sync_quiet.
+    destruct (is_nil (h_pend h)); simpl; reflexivity.
 Qed.
 
 (* fetching: no event of any kind, nothing changes *)
@@ -194,9 +212,11 @@ Lemma step_table g st o :
   succeeded (snd (fst (step g st o))) = true ->
   k_tbl (ks (fst (fst (step g st o))) (op_cls o)) = spec_table g st o.
 Proof.
-  destruct o as [k kw0|k id c v|k id kw0|k id|k id|k id fr|k];
+  destruct o as [k kw0|k id c v|k id kw0|k id|k id|k id fr|k|k id|k id];
     [|rewrite step_assign_is_set; change (spec_table g st (OAssign k id c v)) with (spec_table g st (OSet k id [(c, v)]));
-      change (op_cls (OAssign k id c v)) with (op_cls (OSet k id [(c, v)])); set (kw0 := [(c, v)])| | | | |];
+      change (op_cls (OAssign k id c v)) with (op_cls (OSet k id [(c, v)])); set (kw0 := [(c, v)])| | | | | | |
+     syncfull k id; change (spec_table g st (OSyncFull k id)) with (spec_table g st (OSync k id));
+     change (op_cls (OSyncFull k id)) with (op_cls (OSync k id))];
     unfold step; simpl op_cls.
   - destruct (raiser _ (sel SCreate (tab g k))); [simpl; discriminate|].
     destruct (fill_defaults all_cols _) as [kw2|] eqn:Hf; [|simpl; discriminate].
@@ -230,13 +250,21 @@ Proof.
     intros _. rewrite ks_set_same. reflexivity.
   - destruct (tbl_has id _); reflexivity.
   - reflexivity.
+  - unfold with_handle, spec_table. destruct (h_get id (k_hs (ks st k))) as [h|]; [|simpl; discriminate].
+    cbn [fst snd]. intros _. rewrite ks_set_same. reflexivity.
+  - unfold with_handle, spec_table, pend_of.
+    destruct (h_get id (k_hs (ks st k))) as [h|] eqn:Hh; [|simpl; discriminate].
+    unfold commit_ures. cbn [fst snd]. intros Hs. rewrite (sync_core_ok _ _ _ _ _ Hs). unfold sync_quiet.
+    destruct (is_nil (h_pend h)) eqn:E; simpl; rewrite ks_set_same; simpl.
+    + apply is_nil_true in E. rewrite E, sort_cols_nil, tbl_update_nil. reflexivity.
+    + reflexivity.
 Qed.
 
 Lemma step_pend g st o k id :
   succeeded (snd (fst (step g st o))) = true -> op_target o = Some (k, id) ->
   pend_of (fst (fst (step g st o))) k id = spec_pend g st o.
 Proof.
-  destruct o as [k0 kw0|k0 id0 c v|k0 id0 kw0|k0 id0|k0 id0|k0 id0 fr|k0]; simpl op_target;
+  destruct o as [k0 kw0|k0 id0 c v|k0 id0 kw0|k0 id0|k0 id0|k0 id0 fr|k0|k0 id0|k0 id0]; simpl op_target;
     intros Hs Ht; try discriminate; inversion Ht; subst k0 id0; clear Ht; revert Hs.
   - rewrite step_assign_is_set. change (spec_pend g st (OAssign k id c v)) with (spec_pend g st (OSet k id [(c, v)])).
     unfold step, with_handle, spec_pend, pend_of.
@@ -252,6 +280,15 @@ Proof.
     destruct (negb (validate _)); [simpl; discriminate|].
     destruct (is_lazy k); simpl; intros _; rewrite ks_set_same; simpl; rewrite h_get_put_same; reflexivity.
   - unfold step, with_handle, spec_pend, pend_of.
+    destruct (h_get id (k_hs (ks st k))) as [h|] eqn:Hh; [|simpl; discriminate].
+    unfold commit_ures. cbn [fst snd]. intros Hs. rewrite (sync_core_ok _ _ _ _ _ Hs). unfold sync_quiet.
+    destruct (is_nil (h_pend h)) eqn:E; simpl; rewrite ks_set_same; simpl;
+      rewrite h_get_put_same; simpl; [apply is_nil_true in E; exact E|reflexivity].
+  - unfold step, with_handle, spec_pend, pend_of.
+    destruct (h_get id (k_hs (ks st k))) as [h|] eqn:Hh; [|simpl; discriminate].
+    cbn [fst snd]. intros _. rewrite ks_set_same. simpl. rewrite h_get_put_same. reflexivity.
+  - syncfull k id. change (spec_pend g st (OSyncFull k id)) with (spec_pend g st (OSync k id)).
+    unfold step, with_handle, spec_pend, pend_of.
     destruct (h_get id (k_hs (ks st k))) as [h|] eqn:Hh; [|simpl; discriminate].
     unfold commit_ures. cbn [fst snd]. intros Hs. rewrite (sync_core_ok _ _ _ _ _ Hs). unfold sync_quiet.
     destruct (is_nil (h_pend h)) eqn:E; simpl; rewrite ks_set_same; simpl;
